@@ -132,6 +132,45 @@ def run(ctx):
         except ValueError:
             ctx.oracle_fail("invalid JSON", {"argv": ["select name, name from . into json"]})
         common.rm_tree(snap.root)
+        # exhaustive alphabet stage: every printable ASCII punctuation / control character alone inside a
+        # value (and a few classic pairs), all six formats x four result paths
+        names = []
+        for code in list(range(1, 48)) + list(range(58, 65)) + list(range(91, 97)) + list(range(123, 128)):
+            c = chr(code)
+            if c in "/\0":
+                continue
+            names.append("x" + c + "y")
+            names.append(c + "z" if c != "." else "z" + c)
+        names += ["a&lt;b", "&amp;", "a&b", "<b>&\"'", '""', ",,", "a,\"b\"", "tab\tnl\nq", "é&<ж", "日本&", "'single'", "&#39;", "]]>", "-->"]
+        ents = [{"path": nm, "kind": "f", "size": i % 3, "mode": 0o644, "mtime": 1700000000 + i} for i, nm in enumerate(dict.fromkeys(names))]
+        alpha = corr.Snap(scratch, ents, subdir="alpha")
+        stages = [(alpha, [("streamed", ["name", "size"], "select name, size from ."),
+                           ("ordered", ["name", "size"], "select name, size from . order by name"),
+                           ("grouped", ["name", "count(*)"], "select name, count(*) from . group by name"),
+                           ("aggregate", ["max(size)", "count(name)"], "select max(size), count(name) from .")])]
+        for snap0, qs in stages:
+            for path, sel, base in qs:
+                for fmt in ["json", "csv", "html", "tabs", "lines", "list"]:
+                    q = base + " into " + fmt
+                    ctx.case(("alpha", q))
+                    ctx.distinct.add(("alpha", q, "nt"))
+                    m, impl = corr.run_case(ctx, snap0, [q], fmt=fmt, ncols=len(sel))
+                    ref = common.run_cli([base + " into list"], cwd=snap0.root, scratch=scratch)
+                    case = {"argv": [q], "list_argv": [base + " into list"], "tree": "alphabet tree (one file per special character)"}
+                    got = decode(fmt, impl["out"], len(sel), None)
+                    want = decode("list", ref["out"], len(sel), None)
+                    if isinstance(got, str):
+                        ctx.oracle_fail("output is not well-formed %s: %s" % (fmt, got), case, detail={"out": impl["out"][:200].decode("utf-8", "replace")})
+                        continue
+                    if fmt in ("tabs", "lines"):
+                        continue
+                    canon = (lambda rows: sorted(tuple(sorted(rw)) for rw in rows)) if (fmt == "json" or path == "grouped") else (lambda rows: [tuple(rw) for rw in rows])
+                    if fmt == "json" and path != "grouped":
+                        canon = lambda rows: [tuple(sorted(rw)) for rw in rows]
+                    if canon(got) != canon(want):
+                        bad = [g for g, w in zip(canon(got), canon(want)) if g != w][:3]
+                        ctx.oracle_fail("%s output does not decode to the rows of the list output" % fmt, case, detail={"first_differences": bad})
+        common.rm_tree(alpha.root)
         for t in range(ntrees):
             r = ctx.rng.fork()
             snap = corr.Snap(scratch, adv_tree(r, r.choice([0, 1, 3, 9])), subdir="t%d" % t, tz=r.choice(list(fstree.TZ_OFFSETS)))
